@@ -578,9 +578,14 @@ def field_closures(ctx, rid):
     t = N.term(fn["body"])
     NAMED = "Iterator::all(P1,|1|{Option::is_some(C1_0.name)})"
     UNNAMED = "Iterator::all(P1,|1|{Option::is_none(C1_0.name)})"
-    exp_sel = ("if(slice::is_empty(P1)){Ok(CompositeIRKind::NoFields)}else{if((%s||%s)){"
-               "if(%s){Ok(CompositeIRKind::Named(Iterator::collect(Iterator::map(P1,|1|{%s}))?))}else{early{Not(%s)=><diverge>}Ok(CompositeIRKind::Unnamed(Iterator::collect(Iterator::map(P1,|1|{%s}))?))}"
-               "}else{Err(TypegenError::InvalidFields(%s))}}") % (NAMED, UNNAMED, NAMED, ANY, UNNAMED, ANY, ANY)
+    NMAP = "CompositeIRKind::Named(Iterator::collect(Iterator::map(P1,|1|{%s}))?)" % ANY
+    UMAP = "CompositeIRKind::Unnamed(Iterator::collect(Iterator::map(P1,|1|{%s}))?)" % ANY
+    # decision normal form (conditions in alphabetical order): all-unnamed? then (all-named as well can only be the empty list, excluded above: either
+    # constructor is then unreachable) else all-named? else the mixed error; the `unreachable!()` of the source is decided away
+    E = "slice::is_empty(P1)"
+    NO = "CompositeIRKind::NoFields"
+    exp_sel = ("if(%s){Ok(if(%s){if(%s){%s}else{%s}}else{if(%s){%s}else{%s}})}else{if(%s){Ok(if(%s){%s}else{%s})}else{if(%s){Ok(%s)}else{Err(TypegenError::InvalidFields(%s))}}}"
+               % (UNNAMED, NAMED, E, NO, NMAP, E, NO, UMAP, NAMED, E, NO, NMAP, E, NO, ANY))
     expect_term(ctx, rid, "kind-selection", fn["sp"], t, exp_sel,
                 "empty -> NoFields; mixed -> Err(InvalidFields); all named -> Named(order-preserving map); all unnamed -> Unnamed(order-preserving map)")
     # CompositeFieldIR::new is a plain constructor
